@@ -372,6 +372,25 @@ static inline int data_probe_chunk_length(htp_connp_t *connp) {
     size_t len = connp->out_current_read_offset - connp->out_current_consume_offset;
 
     size_t i = 0;
+
+    // The line may have started in an earlier chunk, in which
+    // case its first bytes are in the buffer: look at those first.
+    while ((connp->out_buf != NULL) && (i < connp->out_buf_size)) {
+        unsigned char c = connp->out_buf[i];
+
+        if (is_chunked_ctl_char(c)) {
+            // ctl char, still good.
+        } else if (isdigit(c) || (c >= 'a' && c <= 'f') || (c >= 'A' && c <= 'F')) {
+            // real chunklen char
+            return 1;
+        } else {
+            // leading junk, bad
+            return 0;
+        }
+        i++;
+    }
+
+    i = 0;
     while (i < len) {
         unsigned char c = data[i];
 
